@@ -89,7 +89,8 @@ def _eligible(fn: ast.AST) -> bool:
     if not isinstance(fn, ast.FunctionDef):
         return False
     for d in fn.decorator_list:
-        if not (isinstance(d, ast.Name) and d.id == "staticmethod"):
+        if not ((isinstance(d, ast.Name) and d.id in ("staticmethod", "contextmanager"))
+                or (isinstance(d, ast.Attribute) and d.attr == "contextmanager")):
             return False
     a = fn.args
     if a.vararg or a.kwarg or a.posonlyargs:
@@ -295,6 +296,17 @@ class Inliner:
         def is_c(x):
             return self._is_call_of(x, h, hcls, ccls, houter)
 
+        is_cm = any((isinstance(d, ast.Name) and d.id == "contextmanager") or (isinstance(d, ast.Attribute) and d.attr == "contextmanager") for d in h.decorator_list)
+        if is_cm:
+            # `with H(args) as v: BODY` with H a @contextmanager generator: H's body with its `yield x` replaced by `v = x; BODY`
+            if isinstance(st, ast.With) and len(st.items) == 1 and is_c(st.items[0].context_expr):
+                tgt = st.items[0].optional_vars or ast.Name(id=f"_cm{self.k}", ctx=ast.Store())
+                pseudo = ast.For(target=copy.deepcopy(tgt), iter=st.items[0].context_expr, body=st.body, orelse=[], type_comment=None)
+                try:
+                    return self._inline_generator(pseudo, caller, h, context_manager=True)
+                except _Abort:
+                    return None
+            return None
         if is_gen:
             if isinstance(st, ast.For) and is_c(st.iter) and not st.orelse:
                 try:
@@ -440,7 +452,7 @@ class Inliner:
         res = _drop_self_assignments(pre + out)
         return res or [ast.Pass()]
 
-    def _inline_generator(self, loop: ast.For, caller, h) -> Optional[List[ast.stmt]]:
+    def _inline_generator(self, loop: ast.For, caller, h, context_manager: bool = False) -> Optional[List[ast.stmt]]:
         """`for T in G(args): BODY` with G a generator of this module: G's body with every `yield e` replaced by `T = e; BODY`.
         One yield: BODY may `continue` if the yield sits in a loop of G. Several yields: BODY's `if c: ...; continue` guards are
         turned into if/else first and no other continue/break may remain; constant components of the yielded tuples (event
@@ -495,7 +507,11 @@ class Inliner:
                         find(hd.body, depth_loop)
         find(body, False)
         lb = loop.body
-        if len(ystmts) == 1:
+        if context_manager:
+            # break / continue / return of the body belong to the caller and stay there: the yield must not sit in a loop of H
+            if len(ystmts) != 1 or in_loop.get(id(ystmts[0])):
+                return None
+        elif len(ystmts) == 1:
             if _has(lb, ast.Break) or (not in_loop.get(id(ystmts[0])) and _has(lb, ast.Continue)):
                 return None
         else:
